@@ -1,0 +1,45 @@
+//go:build verif
+
+// Hooks for the deterministic simulator under /verif. This file is compiled
+// only with `-tags verif`; it adds seams and touches no existing code.
+
+package dig
+
+import (
+	"math/rand"
+	"time"
+
+	"go.uber.org/dig/internal/digclock"
+	"go.uber.org/dig/internal/graph"
+)
+
+// VerifMockClock returns an Option that installs a mock clock in the
+// container (inherited by every scope created from it) together with a
+// function that advances that clock.
+func VerifMockClock() (Option, func(time.Duration)) {
+	m := digclock.NewMock()
+	return setClock(m), m.Add
+}
+
+// VerifRootScope returns the root scope of the container.
+func VerifRootScope(c *Container) *Scope { return c.scope }
+
+// VerifSeedRand replaces the scope's source of randomness (used to shuffle
+// value groups) with one seeded from the given seed.
+func VerifSeedRand(s *Scope, seed int64) {
+	s.rand = rand.New(rand.NewSource(seed))
+}
+
+type verifDigraph struct {
+	n     int
+	edges [][]int
+}
+
+func (g verifDigraph) Order() int            { return g.n }
+func (g verifDigraph) EdgesFrom(u int) []int { return g.edges[u] }
+
+// VerifIsAcyclic runs the internal cycle detector on an explicit digraph
+// with nodes 0..n-1 and adjacency lists edges.
+func VerifIsAcyclic(n int, edges [][]int) (bool, []int) {
+	return graph.IsAcyclic(verifDigraph{n: n, edges: edges})
+}
